@@ -22,6 +22,80 @@ CHECKS["C07"] = dict(
     note="Trusted: Lean kernel + standard axioms; hand-written model (Model/Stack.lean) tied by sampled correspondence; guards and align_offset "
          "come from the translator; debug fill writes are not modelled (content oracle covers them by sampling).",
     technique="Lean 4 proof (invariant by induction) + model/implementation correspondence")
+CHECKS["C06"] = dict(
+    text="Lean theorems over the memory_stack model for all histories with nested marker scopes (no bound on length or depth), all "
+         "configurations and all upstream environments: unwind(m) restores top, used blocks, capacity and leak counter of the state at m and "
+         "keeps the blocks acquired meanwhile in the cache; replaying the same requests yields the same addresses from the cache alone; "
+         "unwind never calls the block source; markers are strictly totally ordered, monotone along histories. Two hypotheses (non-static "
+         "source, < 2^64 blocks) are shown necessary by machine-checked counterexamples. Tied to the code by line-by-line correspondence "
+         "on 3 block sources x rel/rwdi/dbg plus an independent replay oracle on the real stack.",
+    note="Trusted: Lean kernel + standard axioms; hand-written model tied by sampled correspondence; writes of debug fills not modelled "
+         "(content oracle samples 'older allocations untouched').",
+    technique="Lean 4 proof (simulation + invariant, mutual structural induction over nested scopes) + correspondence")
+CHECKS["C02"] = dict(
+    text="Lean theorems for the bump-stack allocation path shared by static_allocator, memory_stack::try_allocate, "
+         "iteration_allocator, joint stack and collection carving: a served request is aligned for every power-of-two alignment, has its "
+         "fences, size bytes inside [top, end], and a fitting request is never refused; guards and align_offset are regenerated from the "
+         "source by the translator. Pools/collections: alignment, size, contiguity and usability checked by oracles on the real code "
+         "over seeded histories (model correspondence for addresses).",
+    note="Proof covers the stack family only; pool/collection/array alignment is at correspondence + oracle level in this round (partial).",
+    technique="Lean 4 proof over translated guards + correspondence/oracles")
+CHECKS["C03"] = dict(
+    text="Lean theorems over the models of static_allocator, memory_stack, iteration_allocator, memory_pool and memory_pool_collection "
+         "(all list types, sources, configurations, upstream environments): try_ functions never throw, emit no upstream event and leave the "
+         "arena unchanged; throwing functions never return null; no request size makes the bump-stack bounds check wrap (D20 repair); a failed "
+         "request leaves blocks, free list, top and leak counter as they were. Tied by correspondence with upstream failure injected at every "
+         "early call position and exhaustion histories; exception class and handler kind are compared per line.",
+    note="count*size overflow of traits-level array functions (D21) is a recorded finding outside the proved statements.",
+    technique="Lean 4 proof (case analysis over executable model) + fault-injection correspondence")
+CHECKS["C05"] = dict(
+    text="Lean theorem: for every history of allocate_block/deallocate_block/shrink_to_fit on a cached or uncached arena over a growing or "
+         "fixed source and EVERY upstream environment (failure at any position), the upstream event log followed by destruction replays as a "
+         "stack — each release returns the most recently acquired outstanding block with its original address and size, nothing remains; plus "
+         "the acquisition-order invariant, cache-first, failure-keeps-blocks, moved-from-inert. Tied by correspondence of the per-operation "
+         "upstream events and an independent ledger in the instrumented upstream under all arena clients.",
+    note="static/virtual sources: no upstream events; covered by correspondence of their pointer checks only.",
+    technique="Lean 4 proof (ledger invariant by induction over histories) + correspondence")
+CHECKS["C12"] = dict(
+    text="Lean theorems: move of memory_stack/arena/iteration_allocator/ordered list hands over the complete state, the moved-from state is "
+         "empty and its destruction is inert (no upstream event, no leak report) in every configuration; moved-to ordered list has a valid "
+         "cursor. Tied by correspondence with moves at seeded positions (object placed below/above its memory), destruction of the moved-from "
+         "object with assertions on, and continued use of the new owner.",
+    note="partial: the pointer re-linking itself is validated by state dumps (sampling), swap/move-assign of pools not exercised.",
+    technique="Lean 4 proof + correspondence")
+CHECKS["C15"] = dict(
+    text="Lean theorems over the pool model: each traits operation changes the counter by exactly the traits-level size iff it succeeded "
+         "(never with leak checking off); after any history the counter is the initial value plus the signed sum (induction); destruction "
+         "reports iff non-zero with the exact amount; balanced histories are silent; a move carries the count. Tied by correspondence of the "
+         "counter after every operation and of the recorded handler calls.",
+    note="partial: process-wide at-exit report of low-level allocators not covered yet.",
+    technique="Lean 4 proof (induction over histories) + correspondence")
+CHECKS["C01"] = dict(
+    text="Lean theorems: for memory_pool over the unordered free list, after ANY history of node/array allocations, try_ variants and releases "
+         "(any environment incl. upstream failures, any node size, any configuration) live ranges are pairwise disjoint, lie inside the usable "
+         "part of an owned block, and free-list cells (the only memory the allocator writes) are disjoint from them (frame); invariant "
+         "established by the constructor; allocation and release agree on the number of cells of an array. Iteration regions: C07 theorems. "
+         "Other allocator kinds: line-by-line correspondence of every returned address plus overlap / inside-owned / content-pattern oracles "
+         "on the real code in rel/rwdi/dbg.",
+    note="partial: proof covers pool<free list> + iteration regions; ordered/small pools, collections, stacks at correspondence+oracle level. "
+         "Hypothesis n*node_size < 2^64 is necessary (machine-checked counterexample, finding D21).",
+    technique="Lean 4 proof (partition invariant by induction over histories) + correspondence/oracles")
+CHECKS["C04"] = dict(
+    text="Lean theorems: capacity counter = number of free nodes for every operation of the unordered list and chunk capacities of the small "
+         "list; allocate+release restores the unordered list exactly (arrays: as a permutation, with exactly ceil(n/ns) cells both ways); "
+         "ordered list: find_pos is correct for every sorted list, cursor and address (valid releases find their adjacent pair; release restores "
+         "the node sequence exactly); pools/collections never call the block source while the matching list holds a node; m node allocations "
+         "with >= m free nodes never grow (so cycles repeat without growth). Tied by state-dump correspondence of all three lists in rel and dbg.",
+    note="multi-array cycles on the unordered list may grow (D15, documented limitation; recorded finding).",
+    technique="Lean 4 proof (list invariants, find_pos correctness) + correspondence")
+CHECKS["C18"] = dict(
+    text="Lean theorems over the translator-generated min_block_size formulas and the list insert models: for every node size and count "
+         "(explicit no-overflow hypotheses) a block of min_block_size bytes yields exactly n nodes (intrusive lists) / at least n and fewer "
+         "than n+255 nodes (small list, using the repaired padded stride; the old formula is refuted by a checked counterexample = D13); pool "
+         "and stack min_block_size add exactly the arena header. Tied by the translator validation (C19 harness), a grid run on the real "
+         "pools and per-operation counter correspondence.",
+    note="'maxima are true upper bounds' is covered through C03 (oversize requests rejected) and the correspondence of the oversize stream.",
+    technique="Lean 4 proof over generated formulas + grid enumeration on the real code")
 NOT_YET = {}
 
 def main():
